@@ -1,27 +1,45 @@
 (* C17 — Reading a CSV file returns the RFC-4180 records with inferred types.
    Property statements only: each is closed by `exact <lemma>` from proofs/, and pinned with Print Assumptions.
-   Models: model/Csv.v (RFC-4180 spec, csv_core DFA, ByteRecords, CsvDecoder::decode, CsvReader loop),
+   Models: model/Csv.v (RFC-4180 spec, csv_core DFA, ByteRecords, CsvDecoder::decode_inner = `decode`,
+   CsvDecoder::decode = `decode_h` (BOM held back), CsvReader loop = `reader_loop_h`),
    model/CsvInfer.v (dialect / schema inference, NULL-for-empty typing). *)
 From Coq Require Import NArith List Bool Arith Permutation.
-From GV Require Import model.Csv model.CsvInfer proofs.CsvProofs proofs.CsvFlushProofs proofs.CsvRfcProofs
-  proofs.CsvInferProofs proofs.CsvInferLattice.
+From GV Require Import model.Csv model.CsvInfer proofs.CsvProofs proofs.CsvFlushProofs proofs.CsvBomProofs
+  proofs.CsvRfcProofs proofs.CsvInferProofs proofs.CsvInferLattice.
 Import ListNotations.
 
 (* ---- chunking ---- *)
-(* 1. THE READER: for every batch capacity, every sequence of non-empty reads, with or without header skipping, the
-   rows are those of one read of the whole file followed by the end-of-input signal: they do not depend on where
-   read-buffer or batch boundaries fall (inside a quoted field, between the two quotes of an escape, between CR and LF,
-   after the delimiter of an empty leading field). *)
+(* 1. THE READER, FULL STATEMENT: for every batch capacity, every sequence of non-empty reads, with or without header
+   skipping, the rows are those of one read of the whole file followed by the end-of-input signal: they do not depend
+   on where read-buffer or batch boundaries fall (inside a quoted field, between the two quotes of an escape, between
+   CR and LF, after the delimiter of an empty leading field, inside a leading UTF-8 BOM). *)
 Theorem C17_reader_chunking_irrelevant : forall d out_cap skip chunks,
   1 <= out_cap ->
   Forall (fun ch => ch <> []) chunks ->
-  (chunks = [] \/ 3 <= length (hd [] chunks) \/ strip_bom rdr_init (concat chunks) = concat chunks) ->
-  reader_loop d out_cap skip st_init chunks
+  reader_loop_h d out_cap skip h_init chunks
     = option_map (fun rs => if skip then tl rs else rs) (run_reader d (concat chunks)).
-Proof. exact reader_chunking_irrelevant. Qed.
+Proof. exact reader_h_chunking_irrelevant. Qed.
 Print Assumptions C17_reader_chunking_irrelevant.
 
-(* 2. the decoder with records read and clear_completed (as written, after 0abcb062b) applied after EVERY read *)
+(* 2. THE DECODER, FULL STATEMENT, records accumulating: the complete state of CsvDecoder (started flag, held bytes,
+   csv_core state, output position, buf, ends, record boundaries) after any sequence of non-empty reads is the state
+   after one read of the whole input *)
+Theorem C17_decoder_chunking_irrelevant : forall d c1 rest,
+  c1 <> [] -> Forall (fun ch => ch <> []) rest ->
+  decode_chunks_h d (c1 :: rest) = decode_h d h_init (c1 ++ concat rest).
+Proof. exact decoder_h_chunking_irrelevant. Qed.
+Print Assumptions C17_decoder_chunking_irrelevant.
+
+(* 2a. what one call of CsvDecoder::decode does while the start of the stream may still be a BOM *)
+Theorem C17_decode_h_spec : forall d p ch, undecided p = true -> ch <> [] ->
+  decode_h d (held p) ch
+  = if undecided (p ++ ch) then held (p ++ ch) else h_run (decode d st_init (p ++ ch)).
+Proof. exact decode_h_spec. Qed.
+Print Assumptions C17_decode_h_spec.
+
+(* 3. the layer below (decode_inner = csv_core + ByteRecords): records read and clear_completed (as written, after
+   0abcb062b) applied after EVERY read, and records accumulating; csv_core strips a BOM only from a first input of
+   >= 3 bytes, hence the side condition at this layer (CsvDecoder::decode establishes it: 2a) *)
 Theorem C17_chunking_irrelevant_flush : forall d chunks,
   Forall (fun ch => ch <> []) chunks -> chunks <> [] ->
   (3 <= length (hd [] chunks) \/ strip_bom rdr_init (concat chunks) = concat chunks) ->
@@ -29,8 +47,6 @@ Theorem C17_chunking_irrelevant_flush : forall d chunks,
 Proof. exact chunking_irrelevant_flush. Qed.
 Print Assumptions C17_chunking_irrelevant_flush.
 
-(* 3. records accumulating: the complete decoder state (csv_core state, output position, buf, ends, record
-   boundaries) after any sequence of non-empty reads is the state after one read of the whole input *)
 Theorem C17_chunking_irrelevant_noflush : forall d c1 rest,
   c1 <> [] -> Forall (fun ch => ch <> []) rest ->
   strip_bom rdr_init (c1 ++ concat rest) = strip_bom rdr_init c1 ++ concat rest ->
@@ -38,13 +54,15 @@ Theorem C17_chunking_irrelevant_noflush : forall d c1 rest,
 Proof. exact chunking_irrelevant_noflush. Qed.
 Print Assumptions C17_chunking_irrelevant_noflush.
 
-(* 4. The BOM side condition is genuinely needed (known finding bom-split-across-first-read: csv_core strips a BOM
-   only if the first read holds all three bytes; not reachable with local files). *)
-Theorem C17_bom_split_refuted :
+(* 4. regression witness about the decoder BEFORE the BOM repair (decode_inner driven directly): a first read of 2
+   bytes left the BOM in the first field; CsvDecoder::decode gives the records of the unsplit stream *)
+Theorem C17_bom_split_old_refuted :
   exists d c1 rest, c1 <> [] /\ Forall (fun ch => ch <> []) rest /\
-    records_of (snd (decode_chunks d (c1 :: rest))) <> records_of (snd (decode d st_init (c1 ++ concat rest))).
-Proof. exact bom_split_refuted. Qed.
-Print Assumptions C17_bom_split_refuted.
+    records_of (snd (decode_chunks d (c1 :: rest))) <> records_of (snd (decode d st_init (c1 ++ concat rest))) /\
+    decode_chunks_h d (c1 :: rest) = decode_h d h_init (c1 ++ concat rest) /\
+    records_of (snd (h_st (decode_chunks_h d (c1 :: rest)))) = Some [[[97]]]%N.
+Proof. exact bom_split_old_refuted. Qed.
+Print Assumptions C17_bom_split_old_refuted.
 
 (* 5. regression witnesses about the OLD definitions (the code before /repo ddfbbbc21 and 0abcb062b): the old reader
    lost the unterminated last record and depended on the cut; the current one does not on the same inputs *)
@@ -98,9 +116,13 @@ Theorem C17_sample_at_eof_is_reader : forall d bs, run_sample d true bs = run_re
 Proof. exact run_sample_eof_reader. Qed.
 Print Assumptions C17_sample_at_eof_is_reader.
 
+Theorem C17_sample_prefix_is_dfa : forall d bs, undecided bs = false -> run_sample d false bs = run_dfa d bs.
+Proof. exact run_sample_noeof_dfa. Qed.
+Print Assumptions C17_sample_prefix_is_dfa.
+
 Theorem C17_dfa_refines_rfc4180 : forall d bs,
   dialect_ok d = true -> well_formed d bs -> strip_bom rdr_init bs = bs ->
-  run_sample d false bs = Some (rfc4180 d bs).
+  run_dfa d bs = Some (rfc4180 d bs).
 Proof. exact dfa_refines_rfc4180. Qed.
 Print Assumptions C17_dfa_refines_rfc4180.
 
